@@ -14,11 +14,21 @@ CFG = {
                   "the sequence of buildpacks libcnb-cargo's execute hands to package_buildpack (model packagingOrder: graph of the workspace, "
                   "root_nodes from the invocation directory, get_dependencies, the loop over build_order as is) is non-empty and a build order "
                   "of its selection; execute fails with the missing-dependency error exactly when the workspace has a dangling dependency and "
-                  "never with an unknown root. Tied to the code by (1) a differential run of build_libcnb_buildpacks_dependency_graph + "
+                  "never with an unknown root; discovery_independent_of_links / placed_buildpack_is_node / "
+                  "missing_dependency_only_when_dangling — the node list handed to create_dependency_graph (model discover) holds every buildpack placed "
+                  "in the workspace whether its directory entry is a directory or a symbolic link (any chain) to one, so MissingDependency names only ids "
+                  "that no buildpack of the workspace carries. Tied to the code by (1) a differential run of build_libcnb_buildpacks_dependency_graph + "
                   "get_dependencies on generated directories and (2) running the real `cargo libcnb package` executable on generated cargo "
                   "workspaces from the root and from buildpack directories: the order of its '[n/m] Building <id>' progress lines (one per "
                   "package_buildpack call) must equal the model's packagingOrder and is judged by the same spec oracle (whyNot/checkOrder).",
-    "level_note": "Trusted: Lean kernel; Spec/Topo.lean (my reading of 'build order'); harness and driver glue. Modelled, not verified: "
+    "level_note": "Trusted: Lean kernel; Spec/Topo.lean (my reading of 'build order', and nodeSetWhyNot: the nodes of the graph are exactly the "
+                  "buildpacks of the workspace — checked on every `lnk` and `pkg` observation, as before on every family-1 observation); harness and driver glue. "
+                  "Which directory entries are buildpacks of the workspace is read off the case: an entry below the workspace root that resolves to a "
+                  "directory holding buildpack.toml, be it a directory or a symbolic link to one (absolute / relative target, chain of two links, "
+                  "target outside the walked tree so that it appears once). What lies below an INTERMEDIATE directory that is a link (ws/via -> ../shared) "
+                  "is not visited by ignore::Walk (follow_links = false, the walker's documented behaviour, runtime dependency): such buildpacks are "
+                  "treated as not part of the workspace (a dependency on one is a dangling one, selecting one is an unknown root) — observed on the "
+                  "unchanged code, not an alarm. Modelled, not verified: "
                   "petgraph 0.8 Graph/DfsPostOrder (iterative; argued in Model/DepGraph.lean to emit in the order of the recursive DFS on every "
                   "graph, sampled by the correspondence), ignore::Walk, toml/serde, uriparse; for the executable also cargo (locate-project, "
                   "metadata, build) and rustc, which are runtime. The order of packaging is observed through the executable's progress lines "
@@ -53,22 +63,42 @@ CFG = {
             "libcnb.rs buildpack, buildpack.toml with [[order]] + package.toml per composite; one run per invocation directory) — exhaustive: "
             "every labelled DAG on <=2 (quick) / <=3 (thorough) buildpacks x every assignment of kinds {libcnb.rs, composite} x invocation "
             "from the workspace root and from every buildpack directory (thorough: every third such workspace once more with one buildpack "
-            "living in the workspace root); 12 hand-made workspaces (chains alternating kinds L>C>L, C>L>C, L>C>C, L>L>C; two diamonds mixing "
+            "living in the workspace root); 12 hand-made workspaces of real directories (chains alternating kinds L>C>L, C>L>C, L>C>C, L>L>C; two diamonds mixing "
             "kinds with unrelated buildpacks beside them; composite / libcnb.rs buildpack in the workspace root depending on and depended on by "
             "others; a composite nested inside the libcnb.rs buildpack that depends on it; two unrelated pairs; 1/3 with a plain invocation "
             "directory = empty selection); then 20 (quick) / 160 (thorough, half of them on exactly 4 buildpacks) seeded random workspaces: "
             "3..7 buildpacks, random DAG, random kinds (<=3 crates), 4 directory styles, 1/4 one buildpack in the workspace root, 1/8 a "
             "dangling dependency, invoked from the root and <=4 buildpack directories, 1/4 also from a plain directory. The directory-walk "
-            "order handed to the model is taken in-process with find_buildpack_dirs on the same unchanged tree. non-trivial = a dependency "
+            "order handed to the model is taken in-process with find_buildpack_dirs on the same unchanged tree; the verdict requires that walk to hold "
+            "every buildpack of the case. 5 further hand-made workspaces with composites whose directory entry is a symbolic link to a directory "
+            "outside the workspace (kind S; absolute / relative target by position): dependency of a composite beside a crate (two directory depths), "
+            "top of a chain over a crate, unrelated, a link depending on a link; invoked from the root and every real buildpack directory (never from "
+            "inside a linked directory: the process's cwd is then outside the cargo workspace). family 3 (`lnk`: library functions, buildpack "
+            "directories behind symbolic links; per buildpack one of: real directory at depth 1 / 2, link with absolute target, link with relative "
+            "target at depth 1 / 2, chain of two links relative-then-absolute / absolute-then-relative, real directory whose buildpack.toml / "
+            "package.toml / Cargo.toml are links to files, real directory below an intermediate linked directory; all targets outside the walked tree, ids "
+            "pairwise distinct, each buildpack once) — exhaustive: every labelled DAG on <=3 buildpacks x every assignment of {directory, absolute link, "
+            "relative link, chain} (thorough: + below-intermediate-link) with at least one non-directory x every non-empty ordered selection of distinct "
+            "buildpacks (so each linked buildpack is a dependency, a root, the whole-workspace selection's member, or unrelated), every 5th with noise "
+            "entries (dangling link, link to a directory without buildpack.toml, link to a file, link to ..); 24 hand-made (6 link styles x {dependency "
+            "of a composite, top of a chain, unrelated, middle + base of a diamond}); 3 with every / some buildpacks below ws/via -> ../shared; 300 "
+            "(quick) / 4 000 (thorough) seeded random (1..8 buildpacks, the long id pool, all 9 ways mixed, 1/8 a dangling dependency, whole-workspace "
+            "selection + 1..5 random ones with repeats / unknown / empty). non-trivial = a dependency "
             "chain of length >=2, or a node with >=2 dependents, or a dangling dependency, or (family 2) a dependency between buildpacks of "
-            "different kinds; distinct = distinct case line",
+            "different kinds, or (family 3) a linked buildpack directory that is a dependency of another buildpack or selected; distinct = distinct case line",
     "trusted_base": ["Spec/Topo.lean is my reading of 'build order' (Reachable, DepsFirst, nodup); checkOrder is proved equivalent to it (Lemmas/Topo.lean)",
+                     "discover (Model/DepGraph.lean) stands for find_buildpack_dirs + the kind filter: an entry counts when it resolves to a directory (link or not), entries below a linked intermediate directory are never seen (ignore::Walk; sampled by the `lnk` family)",
                      "the recursive DFS of Model/DepGraph.lean stands for petgraph's iterative DfsPostOrder (same emission order; sampled)",
                      "packagingOrder (Model/DepGraph.lean) stands for libcnb-cargo's execute up to and including the order of its package_buildpack calls; "
                      "the '[n/m] Building <id>' progress lines are taken as the record of those calls (one line printed right before each call)",
                      "harness: generation of a real cargo workspace from the abstract one; cargo/rustc are runtime; the executable is built from /repo's working tree "
                      "into /verif/harness/target/c15-tool on every run"],
     "assumptions": COMMON_ASSUME + ["buildpack ids in one workspace are pairwise distinct",
+                                    "a buildpack of the workspace = a directory entry the walk visits that resolves (through any chain of symbolic links) to a directory holding "
+                                    "buildpack.toml; link targets lie outside the walked tree, so no buildpack is visited twice (a link to a directory inside the tree would "
+                                    "duplicate an id: outside the quantifier); buildpacks below an intermediate directory that is itself a link are not part of the workspace "
+                                    "(ignore::Walk does not follow links while descending)",
+                                    "git-ignored / hidden buildpack directories (skipped by ignore::Walk) are not generated",
                                     "petgraph Graph::neighbors yields out-edges newest first; DfsPostOrder keeps discovered/finished across move_to",
                                     "pkg family: the workspace tree does not change between the harness's own find_buildpack_dirs call and the executable's "
                                     "(checked: the walk is taken again after the runs and must be equal); every generated crate compiles (offline, no dependencies)"],
